@@ -435,6 +435,11 @@ class Rig:
             self.obs._output(out)
 
 
+def zero_total_displayed(rig):
+    m = rig.obs._state.section_scope_mapping
+    return any(s.total == 0 for sec in ("stale", "run") for s in m.get(sec, {}).values())
+
+
 def snapshot_counts(mapping):
     return {sec: {sc: (s.completed, s.failed, s.running, s.total) for sc, s in d.items()} for sec, d in mapping.items()}
 
@@ -619,11 +624,13 @@ def run_deterministic(kind, seq, driver=None):
                         if e[2] != "tot":
                             readings.append((Fraction(e[1]), 1 if e[2] == "run" else -1))
                         fake.queue = []
-                except ZeroDivisionError as exc:
-                    zero_ok = (kind == "html" and seq["shape"] == "zero" and e[0] == "w" and model is not None
-                               and idx < len(model) and " html=0" in model[idx])
-                    if not zero_ok:
+                except ZeroDivisionError:
+                    # only the HTML renderer divides, and only by `total`: legitimate exactly when a displayed scope has
+                    # total == 0, which needs an announced amount of 0 (outside PosTotals; C20_zero_total_witness)
+                    if not (kind == "html" and e[0] == "w" and seq["shape"] == "zero" and zero_total_displayed(rig)):
                         return (f"{kind}: ZeroDivisionError at event {idx} {e}", None, {})
+                    if model is not None and idx < len(model) and " html=0" not in model[idx]:
+                        return (None, f"the HTML renderer divided by zero at event {idx}, the model says it cannot", {})
                     fake.queue = []
                 except Exception as exc:                # noqa: BLE001 - the monitor: nothing may raise
                     return (f"{kind}: {type(exc).__name__}: {exc} at event {idx} {e}", None, {})
